@@ -29,7 +29,8 @@ P = {
   "that an expired timeout permanently disables soft holds.", "Lean 4 proofs (gate completeness) + Spec judge on implementation traces + correspondence"),
  "C04": ("proto", True,
   "Lean theorems: a reply whose tag does not validate, or whose service is not awaited by that instance, leaves the model state unchanged and emits "
-  "nothing (stray_noop), and the tag reader never wraps modulo 2^32. On the implementation: histories are run with and without stray replies "
+  "nothing (stray_noop), the tag reader never wraps modulo 2^32, and the tag written for an instance reads back as exactly that (id, serial) "
+  "(C04_tag_readback, C04_tag_injective). On the implementation: histories are run with and without stray replies "
   "(stale serial after id reuse, malformed, wrapped, unknown / not-awaited service) inserted at random positions and must agree byte for byte.",
   "Lean 4 proof of stray-reply inertness + differential runs of the implementation with/without the stray line"),
  "C05": ("proto", True,
@@ -50,9 +51,12 @@ P = {
   "explored, not proved: malformed streams, every-which-way re-chunking, prefixes and junk-mixing on the real code under ASan/UBSan with a watchdog.",
   "Lean 4 totality + chunking proofs; sanitizer-backed exploration for the memory-safety facet (labelled runtime)"),
  "C09": ("proto", True,
-  "Spec judge (Lean): every line the real daemon writes parses as an IAuth message of the output grammar, client lines carry a live id, the announced "
+  "Lean theorem C09_wellformed: from the boot state, for every history of input chunks, timer expiries, statistics requests and reloads with "
+  "bareword names, every line the model writes satisfies the output grammar (Hist.wellFormed: no CR/LF/NUL, at most 1023 bytes, known letter, the "
+  "fields that letter needs, decimal id and port, a routing tag that reads back); C09_tag_roundtrip for all 32-bit ids and serials. "
+  "The same Lean predicate then judges the real daemon's bytes: every line parses, client lines carry a live id, the announced "
   "port mod 2^16 and an address text that the RFC 4291 reference parser maps to the canonical form of the announced address; banner first; nothing "
-  "on the channel from reloads or bad info requests at verbosity 0.", "Spec judge (output grammar + addressing) on implementation traces + correspondence"),
+  "on the channel from reloads or bad info requests at verbosity 0.", "Lean 4 proof that every model output line is well-formed, for every history + the same predicate as Spec judge on implementation traces + correspondence"),
  "C10": ("proto", True,
   "Lean theorems: the model's table size changes only by announcement (+1 or replace) and by disconnect/registered/verdict (-1). On the real code the "
   "'in use' figure of every statistics reply is compared with the Spec's live count, end of input must exit cleanly with zero live timer events "
@@ -157,7 +161,7 @@ def main(claim):
         ],
         "checks": checks,
         "not_applicable": na,
-        "notes": "All checks share check.py (decision protocol: DESIGN.md section 4). Properties still listed under not_applicable are under construction, not judged inapplicable.",
+        "notes": "All checks share check.py (decision protocol: DESIGN.md section 4).",
     }
     json.dump(man, open(os.path.join(HERE, "MANIFEST.json"), "w"), indent=1)
     print("claimed:", " ".join(sorted(claim)))
